@@ -155,7 +155,11 @@ DoTruncate(o) ==
     IN /\ log' = nl
        /\ segs' = ns
        /\ epochs' = ClearLatest(epochs, o)
-       /\ rd' = [r \in Readers |-> IF rd[r].alive /\ rd[r].next >= o THEN NoReader ELSE rd[r]]
+       \* readers positioned at or after o are ended (the code returns an error from them);
+       \* a truncation that empties the log ends every reader (the log restarts at the base
+       \* offset of its first segment, which may be below the position of a reader that was
+       \* created below the first offset of a log that started above 0)
+       /\ rd' = [r \in Readers |-> IF rd[r].alive /\ (rd[r].next >= o \/ nl = <<>>) THEN NoReader ELSE rd[r]]
        /\ obs' = [a |-> "Truncate", ret |-> <<>>, err |-> ""]
        /\ UNCHANGED <<cfg, hw, ro>>
 
@@ -209,6 +213,17 @@ DoDrain(r) ==
      /\ obs' = [a |-> "Drain", ret |-> Fps(got), err |-> ""]
   /\ UNCHANGED <<cfg, log, segs, hw, epochs, ro>>
 
+\* read at most k records with reader r (non-blocking): a reader that stops in
+\* the middle of what is available and carries on later
+FirstK(q, k) == IF Len(q) > k THEN SubSeq(q, 1, k) ELSE q
+DoRead(r, k) ==
+  /\ rd[r].alive
+  /\ LET got == FirstK(Avail(r), k) IN
+     /\ rd' = [rd EXCEPT ![r].next = IF got = <<>> THEN @ ELSE Last(got).off + 1,
+                         ![r].parked = IF got = <<>> THEN @ ELSE FALSE]
+     /\ obs' = [a |-> "Read", ret |-> Fps(got), err |-> ""]
+  /\ UNCHANGED <<cfg, log, segs, hw, epochs, ro>>
+
 -----------------------------------------------------------------------------
 (* What the properties demand of each call (C01, C03-safety, C16) *)
 
@@ -256,9 +271,17 @@ P_SetHW(h) == Unchanged /\ hw' = IF h > hw THEN h ELSE hw
 \* repeated; where it resumes below its start is judged under C10.
 P_Drain(r) ==
   /\ Unchanged /\ HWMonotone
+  /\ obs'.err = ""
   /\ IF rd[r].parked
      THEN \E m \in 0..rd[r].next : obs'.ret = Fps(AvailFrom(r, m))
      ELSE obs'.ret = Fps(AvailFrom(r, rd[r].next))
+
+P_Read(r, k) ==
+  /\ Unchanged /\ HWMonotone
+  /\ obs'.err = ""
+  /\ IF rd[r].parked
+     THEN \E m \in 0..rd[r].next : obs'.ret = Fps(FirstK(AvailFrom(r, m), k))
+     ELSE obs'.ret = Fps(FirstK(AvailFrom(r, rd[r].next), k))
 
 \* state invariants
 C01_Ordered == \A i \in 1..Len(log) - 1 : log[i].off < log[i + 1].off
